@@ -16,7 +16,8 @@
    over a copy of n.children).  The pinned pre-fix loop, which ranges over the slice that
    parent.deleteChild shifts in place, is kept as [prune_pre] with the Go slice aliasing explicit.
    Likewise accumulateHashesInDescedingOrder is modelled with the repaired end-of-walk check
-   (fixes/C15-range-unrelated.patch); the pre-fix version is [accumulate_pre]. *)
+   (repo commit "fix: BlockTree.Range fails when the start block is not an ancestor of the end
+   block"); the pre-fix version is [accumulate_pre]. *)
 From Coq Require Import List NArith ZArith Bool.
 From Common Require Import Outcome.
 Import ListNotations.
@@ -398,14 +399,16 @@ Definition accumulate_pre (end_anc : list bnode) (endn startn : bnode) : outcome
     if (length end_anc <=? k)%nat then Err e_nil_block
     else Ok (nhash startn :: rev (map nhash (firstn k end_anc))).
 
-(* repaired: after the walk the cursor must be the start node *)
+(* repaired (commit "fix: BlockTree.Range fails when the start block is not an ancestor of the
+   end block"): after the walk the cursor must be the start node (pointer comparison; within a
+   tree, same hash), otherwise ErrStartNodeNotFound *)
 Definition accumulate (end_anc : list bnode) (endn startn : bnode) : outcome (list N) :=
   match accumulate_pre end_anc endn startn with
   | Ok l =>
     let k := N.to_nat (nnumber endn - nnumber startn) in
     match nth_error end_anc k with
-    | Some c => if nhash c =? nhash startn then Ok l else Err e_not_ancestor
-    | None => Err e_not_ancestor
+    | Some c => if nhash c =? nhash startn then Ok l else Err e_start_not_found
+    | None => Err e_start_not_found
     end
   | other => other
   end.
